@@ -28,7 +28,8 @@ class CheckC05(core.Check):
     cfg = "A"
     rule = (
         "case = one stateful session, sender writes N uniquely tagged messages, the receiver sees a delivery schedule over {deliver j, "
-        "deliver j into a too-small buffer, deliver j with a flipped bit, garbage, oversize, too short, set_receiving_nonce(v)}; oracle: "
+        "deliver j into a too-small buffer, deliver j with a flipped bit, garbage, oversize, too short, set_receiving_nonce(v)}, with refused writes "
+        "(over-long payload, too small a buffer) between the sender's genuine writes - message j is the j-th successful write; oracle: "
         "accept iff j == rn (then rn += 1), everything else rejected with rn unchanged, receiving_nonce() == rn after every op, accepted "
         "payload == written payload; exhaustive for N=3 up to the length bound, random for N<=8, length<=40; distinct key = (cipher, "
         "backend, direction, schedule); non-trivial = schedule contains at least one rejection and one acceptance"
@@ -99,8 +100,21 @@ class CheckC05(core.Check):
         sizes = [12] * n
         if not spec.startswith("x:"):
             sizes = [rnd.choice([12, 12, 12, 0, 1, 65519, 4096]) for _ in range(n)]
+        # refused writes between the genuine ones: they are not messages, so message j is still the j-th *successful* write
+        refused = []
         for j in range(n):
+            if spec.startswith("x:"):
+                rk = {1: "long", 2: "smallbuf"}.get(j)
+            else:
+                rk = rnd.choice(["long", "long2", "smallbuf"]) if rnd.random() < 0.3 else None
+            if rk == "long":
+                refused.append(c.op("t_write", w, pay="zero:65520", buf=BIG, flags=("q",)))
+            elif rk == "long2":
+                refused.append(c.op("t_write", w, pay="zero:%d" % rnd.choice([65521, 65535, 65536, 69984]), buf=BIG, flags=("q",)))
+            elif rk == "smallbuf":
+                refused.append(c.op("t_write", w, pay="gen:%d:rf%d" % (sizes[j], j), buf=sizes[j] + rnd.choice([0, 15]) if not spec.startswith("x:") else sizes[j] + 15, flags=("q",)))
             c.op("t_write", w, pay="gen:%d:id%d" % (sizes[j], j), buf=BIG, out="g%d" % j, flags=("q",))
+        c.meta["refused"] = refused
         steps = []
         # an empty payload fits any buffer: "too small a buffer" does not exist for it
         sched = [("d", v) if kind == "small" and sizes[v] == 0 else (kind, v) for kind, v in sched]
@@ -133,6 +147,14 @@ class CheckC05(core.Check):
         rn = 0
         acc = rej = 0
         ci, be, d, spec = case.info["key"]
+        for lab in case.meta.get("refused", []):
+            e = by.get(str(lab))
+            if e is None or e.skipped or e.panic or e.ok:
+                # an over-long / unbufferable write that is not refused is C14's (or C10's) matter; the numbering of the
+                # messages is then no longer the one this case assumes
+                r.foreign_dev("C14", "a write that must be refused was not: %s" % (e.res[:80] if e is not None else "missing"))
+                return r
+            r.stats["refused_writes_interleaved"] += 1
         for lab, kind, v in case.meta["steps"]:
             e = by.get(str(lab))
             if e is None or e.skipped:
